@@ -89,7 +89,7 @@ def handle (j : Json) : Except String Json := do
     let n ← getNat j "n"
     let t0 ← getInt j "t0"
     let step ← getInt j "step"
-    let hits := (List.range n).map (fun k => Hit.mk (t0 + (k : Int) * step) true)
+    let hits := (List.range n).map (fun (k : Nat) => Hit.mk (t0 + (Int.ofNat k) * step) true)
     let (st, coll) := runFrom cfg Stats.init hits
     pure (Json.mkObj [("count", toJson coll.length), ("last", toJson st.last), ("stats_count", toJson st.count),
                       ("first", toJson (coll.head?.getD 0))])
